@@ -306,7 +306,8 @@ def _http_overlap_job(args):
 
     from ..core import asyncpoints, dav, davsys
 
-    rname, wname = args
+    rname, wname = args[:2]
+    prop = args[2] if len(args) > 2 else "C05"
     base = davsys.COLL_PATHS["cal"]
     ct = {"Content-Type": B.CT_ICS}
     vios = {}
@@ -324,9 +325,15 @@ def _http_overlap_job(args):
     def reqs(ea):
         R = {"put-a-if-match": ("PUT", base + "a.ics", dict(ct, **{"If-Match": ea}), B.ALL_BODIES["X2"]),
              "put-a": ("PUT", base + "a.ics", ct, B.ALL_BODIES["X2"]),
+             # conditional requests: the condition must hold at the moment the request takes effect
+             "put-a-if-match-star": ("PUT", base + "a.ics", dict(ct, **{"If-Match": "*"}), B.ALL_BODIES["X2"]),
+             "put-c-if-none-match-star": ("PUT", base + "c.ics", dict(ct, **{"If-None-Match": "*"}), B.ics("uid-c1", "by R")),
+             "put-a-if-none-match-etag": ("PUT", base + "a.ics", dict(ct, **{"If-None-Match": '"0000000000000000000000000000000000000000"'}), B.ALL_BODIES["X2"]),
+             "delete-a-if-match": ("DELETE", base + "a.ics", {"If-Match": ea}, b""),
              "get-a": ("GET", base + "a.ics", {}, b""),
              "multiget-a-b": ("REPORT", base, dict(dav.XML_CT, Depth="1"), dav.multiget_body("calendar", [base + "a.ics", base + "b.ics"], [dav.P_GETETAG, dav.P_CALDATA]))}[rname]
         W = {"put-a-other": ("PUT", base + "a.ics", ct, X3), "put-a-if-match": ("PUT", base + "a.ics", dict(ct, **{"If-Match": ea}), X3), "delete-a": ("DELETE", base + "a.ics", {}, b""),
+             "put-c": ("PUT", base + "c.ics", ct, B.ics("uid-c2", "by W")),
              "put-b": ("PUT", base + "b.ics", ct, Z2), "new-c-uid-of-a": ("PUT", base + "c.ics", ct, C_DUP1), "delete-a-if-match": ("DELETE", base + "a.ics", {"If-Match": ea}, b"")}[wname]
         return R, W
 
@@ -387,7 +394,7 @@ def _http_overlap_job(args):
             try:
                 resp, oresp, n, labels = asyncpoints.run(w.app, R, inject_at=k, other=W)
             except Exception as e:
-                sig = "C05|http-overlap|%s|%s|exception:%s" % (rname, wname, type(e).__name__)
+                sig = "%s|http-overlap|%%s|%%s|exception:%%s" % prop % (rname, wname, type(e).__name__)
                 vios.setdefault(sig, {"summary": "%s with %s handled at its suspension point %d ended with an uncaught %s (a 500)" % (rname, wname, k, type(e).__name__), "witness": {"R": rname, "W": wname, "point": k}, "count": 0})["count"] += 1
                 k += 1
                 continue
@@ -397,11 +404,11 @@ def _http_overlap_job(args):
             out = (status(resp), status(oresp), final(w.app))
             if rname in ("get-a", "multiget-a-b"):
                 if not consistent_read(resp):
-                    sig = "C05|http-overlap|%s|%s|etag-and-data-of-different-versions" % (rname, wname)
+                    sig = "%s|http-overlap|%%s|%%s|etag-and-data-of-different-versions" % prop % (rname, wname)
                     vios.setdefault(sig, {"summary": "a read that overlapped %s returned an ETag together with the data of another version" % wname, "witness": {"R": rname, "W": wname, "point": k}, "count": 0})["count"] += 1
             elif out not in allowed:
-                sig = "C05|http-overlap|%s|%s|not-serialisable:%s/%s" % (rname, wname, out[0], out[1])
-                vios.setdefault(sig, {"summary": "%s overlapped by %s (handled at suspension point %d of %d): answers %s/%s with final members %s equal neither order run sequentially %s" % (rname, wname, k, n, out[0], out[1], [x[0] for x in out[2]], sorted((a, b) for a, b, c in allowed)),
+                sig = "%s|http-overlap|%%s|%%s|not-serialisable:%%s/%%s" % prop % (rname, wname, out[0], out[1])
+                vios.setdefault(sig, {"summary": "%s overlapped by %s (handled at suspension point %d of %d): answers %s/%s with final members %s equal neither order run sequentially %s" % (rname, wname, k, n, out[0], out[1], [x[0] for x in out[2]], sorted(((a, b) for a, b, c in allowed), key=repr)),
                                       "witness": {"R": rname, "W": wname, "point": k}, "count": 0})["count"] += 1
         finally:
             w.close()
@@ -412,6 +419,7 @@ def _http_overlap_job(args):
 
 def http_overlap_phase(rep, nw):
     jobs = [(r, w) for r in ("put-a-if-match", "put-a", "get-a", "multiget-a-b") for w in ("put-a-other", "put-a-if-match", "delete-a", "put-b", "new-c-uid-of-a", "delete-a-if-match")]
+    jobs += [("put-c-if-none-match-star", "put-c"), ("delete-a-if-match", "put-a-other"), ("put-a-if-match-star", "delete-a"), ("put-a-if-match-star", "put-a-other")]
     with mp.get_context("fork").Pool(nw) as pool:
         results = pool.map(_http_overlap_job, jobs, chunksize=1)
     n = 0
